@@ -376,6 +376,64 @@ async fn run_seq(seq: &Seq) -> SeqOutcome {
     o
 }
 
+
+/// The same admission rules through `passage::start(Config)`: the PROXY version switches and the
+/// limiter settings of the configuration file must be the ones in force.
+async fn config_wiring(report: &mut Report) {
+    use passage::config::{Config, ProxyProtocol, RateLimiter as LimiterConfig};
+    for (allow_v1, allow_v2) in [(true, false), (false, true), (true, true)] {
+        let port = tcp::free_port();
+        let addr: SocketAddr = format!("127.0.0.1:{port}").parse().expect("addr");
+        let limit = 2usize;
+        let config = Config {
+            address: addr.to_string(),
+            timeout: 3,
+            rate_limiter: Some(LimiterConfig { duration: 3600, limit }),
+            proxy_protocol: Some(ProxyProtocol { allow_v1, allow_v2 }),
+            ..Default::default()
+        };
+        std::thread::spawn(move || {
+            let rt = tokio::runtime::Builder::new_multi_thread().worker_threads(2).enable_all().build().expect("runtime");
+            let _ = rt.block_on(passage::start(config));
+        });
+        if !tcp::wait_listening(addr, Duration::from_secs(10)).await {
+            report.inconclusive("a listener started from the configuration did not come up");
+            continue;
+        }
+        let name = format!("config/v1:{allow_v1},v2:{allow_v2}/limit-{limit}");
+        let mut trace = vec![];
+        for (version, src) in [(1, "198.51.100.10:40000"), (2, "198.51.100.20:40000")] {
+            let src: SocketAddr = src.parse().expect("addr");
+            let allowed = if version == 1 { allow_v1 } else { allow_v2 };
+            for k in 0..3 {
+                let c = Conn { peer_ip: "127.0.0.1".parse().expect("ip"), header: if version == 1 { Header::V1(src) } else { Header::V2(src) }, login: false };
+                let Ok((end, log)) = one_connection(addr, &c, Some((allow_v1, allow_v2)), 7000 + k).await else {
+                    report.inconclusive(&format!("{name}: connect failed"));
+                    continue;
+                };
+                let served = log.count("StatusResponse") > 0;
+                let bytes = end.bytes_received();
+                end.kill();
+                let expect = allowed && (k as usize) < limit;
+                report.eval(Some(&format!("{name}/v{version}#{k}")));
+                report.count("connections through passage::start(Config)", 1);
+                trace.push(json!({"header": format!("v{version}"), "k": k, "served": served, "bytes": bytes, "expected_served": expect}));
+                if served != expect || (!expect && bytes > 0) {
+                    let sig = if !allowed {
+                        format!("config-wiring/disabled-version-served/v{version}")
+                    } else if expect {
+                        format!("config-wiring/allowed-version-refused/v{version}")
+                    } else {
+                        "config-wiring/configured-limit-not-enforced".to_string()
+                    };
+                    report.violation(&sig, &format!("listener from Config{{allow_v1:{allow_v1}, allow_v2:{allow_v2}, limit:{limit}}}: connection {k} with a v{version} header: served={served}, expected {expect}"), json!({"configuration": name, "trace": trace}));
+                }
+            }
+        }
+        report.sample(json!({"configuration": name, "trace": trace}));
+    }
+}
+
 pub async fn run_prop(cli: &Cli) -> i32 {
     let mut report = Report::new(
         cli,
@@ -411,5 +469,6 @@ pub async fn run_prop(cli: &Cli) -> i32 {
             report.violation(&f.signature, &f.what, json!({"sequence": seq.name, "configuration": {"proxy": format!("{:?}", seq.proxy), "limit": seq.limit}, "detail": f.detail, "trace": o.trace}));
         }
     }
+    config_wiring(&mut report).await;
     report.finish()
 }
